@@ -727,6 +727,56 @@ func runC19Centre(c *Ctx) {
 			c.Bad(in.Pos(), fn, construct, "Reverse divides by rho = |xy| with no guard: at the projection centre (xy = 0,0) this is 0/0 and the result is NaN instead of the centre's longitude/latitude")
 		})
 	}
+	// the same division inside a helper introduced since the baseline that is handed the radial
+	// distance: guarded in the helper on its parameter, or at the call site on the argument
+	excludesZero := func(at ssa.Instruction, den ssa.Value) bool {
+		den = stripLoad(den)
+		for _, g := range guardsAt(at) {
+			gb, ok := g.Cond.(*ssa.BinOp)
+			if !ok {
+				continue
+			}
+			isDen := func(v ssa.Value) bool { v = stripLoad(v); return v == den || sameValue(v, den) }
+			zero := func(v ssa.Value) bool {
+				cst, ok := v.(*ssa.Const)
+				return ok && cst.Value != nil && cst.Value.String() == "0"
+			}
+			if (gb.Op == token.EQL && !g.Truth || gb.Op == token.NEQ && g.Truth || gb.Op == token.GTR && g.Truth && isDen(gb.X)) &&
+				((isDen(gb.X) && zero(gb.Y)) || (isDen(gb.Y) && zero(gb.X))) {
+				return true
+			}
+		}
+		return false
+	}
+	for _, p := range cartoProjections(c) {
+		f := p.reverse
+		par := f.Params[1]
+		eachCall(f, func(ci ssa.CallInstruction) {
+			h := staticCallee(ci)
+			if h == nil || !isNewHelper(h) || len(h.Blocks) == 0 {
+				return
+			}
+			for ai, a := range ci.Common().Args {
+				if ai >= len(h.Params) || !isFloat(a.Type()) || !radialDistance(a, par) {
+					continue
+				}
+				hp := h.Params[ai]
+				eachInstr(h, func(in ssa.Instruction) {
+					bo, ok := in.(*ssa.BinOp)
+					if !ok || bo.Op != token.QUO || !isFloat(bo.Type()) || stripLoad(bo.Y) != ssa.Value(hp) {
+						return
+					}
+					n++
+					construct := "divide by the radial distance from the projected centre"
+					if excludesZero(in, hp) || excludesZero(ci, a) {
+						c.OK(in.Pos(), FuncName(h), construct, "a dominating guard (in the helper or at its call in Reverse) excludes rho == 0")
+					} else {
+						c.Bad(in.Pos(), FuncName(h), construct, "Reverse divides by rho = |xy| (inside "+FuncName(h)+") with no guard: at the projection centre (xy = 0,0) this is 0/0 and the result is NaN instead of the centre's longitude/latitude")
+					}
+				})
+			}
+		})
+	}
 	if n < 2 {
 		c.Errorf("found %d divisions by the radial distance in Reverse bodies, expected >= 2 (AzimuthalEquidistant, Orthographic)", n)
 	}
